@@ -72,10 +72,14 @@ class Checker:
         # findings can be listed per CPU there and per mnemonic for the exhaustive scan
         if payload.get("mode") == "roundtrip":
             kind = kind + "_rt"
+        sig = "*"
+        if kind.startswith("c01_refix") and "want" in payload:
+            sig = c07.refix_signature(payload["want"], payload["reassembled"])
         if self.survey:
-            self.s.notes.append("SURVEY\t%s\t%s\t%s\t1\t%s" % (cpu, kind, mn, json.dumps(payload)))
+            self.s.notes.append("SURVEY\t%s\t%s\t%s\t1\t%s" % (cpu, kind, mn if sig == "*" else mn + "/" + sig,
+                                                              json.dumps(payload)))
             return
-        fid = self.known.match(cpu, kind, mn)
+        fid = self.known.match(cpu, kind, mn, sig)
         if fid:
             self.s.known_hits.setdefault(fid, dict(cpu=cpu, kind=kind, mnemonic=mn, example=payload))
             self.s.excluded_known += 1
@@ -120,7 +124,7 @@ class Checker:
             if b2 != want:
                 self.report(cpu, "c01_refix", mn, dict(what="assembling the disassembly of the emitted bytes gives "
                                                            "different bytes", text=text, addr=addr, bytes=b1.hex(),
-                                                       decoded=t, reassembled=b2.hex(), mode="roundtrip"))
+                                                       decoded=t, reassembled=b2.hex(), want=want.hex(), mode="roundtrip"))
         return "closed" if closed else "ok"
 
 
